@@ -160,9 +160,6 @@ func twoSourceManager(ctx context.Context, rr *core.Rand, s int) string {
 		}
 		time.Sleep(10 * time.Millisecond)
 	}
-	if !settled {
-		return "ok" // (the machine is too busy: nothing to compare)
-	}
 	time.Sleep(50 * time.Millisecond)
 	// every row is stamped with the pair that produced it: per (source, integration) as many rows as that
 	// source's chain has Transfer logs in blocks 1..29 (the two chains are different chains)
@@ -189,7 +186,8 @@ func twoSourceManager(ctx context.Context, rr *core.Rand, s int) string {
 		}
 	}
 	for k, w := range want {
-		if got[k] != w {
+		// (not settled - a busy machine, or tasks that can no longer make progress: only "too many" can be judged)
+		if got[k] > w || (settled && got[k] != w) {
 			return fmt.Sprintf("rows stamped %s: %d, that pair's chain yields %d (all stamps: %v)", k, got[k], w, got)
 		}
 	}
